@@ -114,7 +114,9 @@ def _pumped(k, ev, failing):
         hist.do_event(pump if not (failing and n % 2) else fail)
         n += 1
         if n > 4 * k + 8:
-            raise core.HarnessError("the pump does not advance the counter")
+            # on a compiler without memory of earlier compilations every compilation of the pump statement creates one
+            # temporary; a pump that stops doing so is a compilation whose result depends on the ones before it
+            return _counter(ev.inst), ("pump-stalled", n)
     c = _counter(ev.inst)
     return c, hist.do_event(ev)
 
@@ -131,10 +133,16 @@ def counter_sweep(ctx, alpha, base, counts):
     items = [(k, ev, f) for k in counts for ev in alpha for f in (False, True) if not (f and k == 0)]
     res = core.pmap(_pump_work, items, seed=ctx.seed, chunk=8)
     reached = set()
-    n = 0
+    n = stalled = 0
     for (k, ev, f), (c, obs) in zip(items, res):
         n += 1
         reached.add(c)
+        if obs[0] == "pump-stalled":
+            stalled += 1
+            if stalled <= 3:
+                ctx.report({"history": ["%d x stmt@%s(pump%s)" % (obs[1], ev.inst, "+failures" if f else "")], "counter_reached": c, "counter_wanted": k, "pump": PUMP, "kind": "pump"}, None,
+                           what="compiling `%s` %d times on one compiler creates only %d temporaries: a later compilation of the same statement does not do what the first one did" % (PUMP, obs[1], c))
+            continue
         bad = same(base[ev.key()], obs)
         if bad:
             ctx.report({"history": ["%d x stmt@%s(pump%s)" % (k, ev.inst, "+failures" if f else "")], "counter_before_event": c, "event": ev.label(), "behaviour": ev.texts[0], "why": bad, "pump": PUMP},
@@ -260,6 +268,15 @@ def replay(ctx, path):
     pc.ensure([t for ev in alpha for t in ev.texts] + [SUB[3], PUMP])
     hist.setup(comps, pc, parsed_insns={ev.name: ev.texts for ev in alpha if ev.kind == "insn"})
     drop = ("hybrid_op_count", "missing_fcns")
+    if case.get("kind") == "pump":
+        ev = alpha[0]
+        o1 = _pump_work((case["counter_wanted"], ev, "+failures" in case["history"][0]))
+        stalled = o1[1][0] == "pump-stalled"
+        print("pump driven towards %d temporaries: %s" % (case["counter_wanted"], "stalls at %d" % o1[0] if stalled else "reached"))
+        if stalled:
+            print("VIOLATION property=%s replay=%s" % (ctx.pid, path))
+            return 1
+        return 0
     if case["event"] not in by:
         print("event not in the alphabet (corpus pair): re-run the thorough tier")
         return 0
